@@ -1873,6 +1873,43 @@ def same_any(x, y):
     return same_ref(x, y)
 
 
+def deep_equal(a, b):
+    """structural equality of two heap contents; bool or BoolRef (reference values: same target)"""
+    if a is b:
+        return True
+    if isinstance(a, tuple) and isinstance(b, tuple):
+        if len(a) != len(b):
+            return False
+        r = True
+        for x, y in zip(a, b):
+            r = band(r, deep_equal(x, y))
+            if r is False:
+                return False
+        return r
+    if isinstance(a, BigArr) and isinstance(b, BigArr):
+        if a.base is b.base and a.over is b.over:
+            return True
+        return simp(a.flat() == b.flat())
+    if isinstance(a, (bool, int)) or is_sym(a) or isinstance(b, (bool, int)) or is_sym(b):
+        if z3.is_fp(a) if is_sym(a) else False:
+            return simp(z3.fpEQ(a, b)) if is_sym(b) else False
+        return val_equal(a, b)
+    if a is None or b is None:
+        return a is None and b is None
+    if isinstance(a, str) or isinstance(b, str):
+        return a == b
+    if isinstance(a, Union) or isinstance(b, Union):
+        return ref_equal(a, b)
+    if isinstance(a, Closure) and isinstance(b, Closure):
+        return same_ref(a, b)
+    if isinstance(a, SliceV) and isinstance(b, SliceV):
+        return same_ref(a, b)
+    try:
+        return ref_equal(a, b)
+    except Unsupported:
+        return same_any(a, b)
+
+
 def map_union(u, f):
     return Union([(g, f(a)) for g, a in u.alts])
 
@@ -2150,6 +2187,34 @@ def install_default_intrinsics(ex):
         else:
             ex.obligations.append(Obligation('exit', 'unexpected os.Exit', pos, st.pc, False))
         return None, None
+
+    def vglobalsmark(ex, st, args, pos):
+        ex.globals_mark = {name: st.heap[p.obj] for name, p in ex.globals.items()}
+        return None, st
+    I['v:vGlobalsMark'] = vglobalsmark
+
+    def vglobalsunchanged(ex, st, args, pos):
+        base = getattr(ex, 'globals_mark', None)
+        if base is None:
+            raise Inconclusive('vGlobalsUnchanged without vGlobalsMark')
+        r = True
+        changed = []
+        for name, p in ex.globals.items():
+            short = name.rsplit('.', 1)[-1]
+            if short.startswith('v') and short[1:2].isupper() or short.startswith('verif'):
+                continue   # harness runtime state
+            a, b = base[name], st.heap[p.obj]
+            if a is b:
+                continue
+            e = deep_equal(a, b)
+            if e is not True:
+                changed.append(name)
+            r = band(r, e)
+        ex.stats['globals_compared'] = len(ex.globals)
+        if changed:
+            ex.stats.setdefault('globals_possibly_written', []).extend(changed[:10])
+        return r, st
+    I['v:vGlobalsUnchanged'] = vglobalsunchanged
 
     def vmark(ex, st, args, pos):
         ex.mark = const_name(args[0])
